@@ -1,12 +1,19 @@
 chk("C13", "proof",
-    "Coq theorems (coq/Properties/C13.v) about the transcription of ISD._process_element show shape clauses of every snapshot for every "
-    "document and time (see the file for the exact list and for what remains `_partial`); the transcription is compared with ISD.from_model "
-    "on style-heavy generated documents inside Coq, and an executable shape checker (Spec/IsdShape.v, 11 clauses written from doc/isd.md and "
-    "the property text) is evaluated in Coq on every snapshot the implementation produces; document parameters and ownership are compared "
-    "on the Python objects.",
-    "Trusted: Coq kernel; harness literal printer; the checker as a reading of doc/isd.md. Recorded findings: tts:disparity is never "
-    "computed (lengths not rh/rw); text below rp is not white-space processed.",
-    "Coq theorems by rose-tree induction + in-Coq evaluation of model and shape checker on generated documents", "DESIGN.md section 5 C13")
+    "Coq theorems (coq/Properties/C13.v) about the transcription of ISD._process_element prove ALL eleven clauses of the shape checker "
+    "(Spec/IsdShape.v, written from doc/isd.md and the property text) for every document and every rational time, and their conjunction "
+    "C13_shape: forall d t rs, doc_wf d = true -> isd d t = Ok rs -> isd_shape rs = true, with no property and no element excepted: no "
+    "timing, no animation, no region reference, exactly the applicable styles, no display:none (no hypothesis); content model incl. the ruby / "
+    "rtc patterns, origin = position, no empty text / childless span, white space collapsed (text below rp included), empty regions only "
+    "with showBackground=always (under doc_content_wf: the source content model of data_model.md minus the ruby patterns); every length "
+    "rh/rw incl. tts:disparity (under doc_values_wf: non-computed properties carry no other length). Both hypotheses are executable "
+    "booleans, are what C15 establishes for API-built documents, and are evaluated in Coq on every generated document. The transcription is "
+    "compared with ISD.from_model inside Coq on style-heavy documents and on documents built for white-space handling, span pruning and "
+    "ruby containers, and the strict checker is evaluated in Coq on every snapshot the implementation produces; document parameters and "
+    "ownership are compared on the Python objects (not proved: they are about the Python object graph).",
+    "Trusted: Coq kernel; harness literal printer; the checker as a reading of doc/isd.md; doc_wf as a reading of what model.py enforces (C15). "
+    "No recorded finding: tts:disparity and white space below rp were repaired (fix: commits, witnesses in harness/witnesses_c13.py).",
+    "Coq theorems by rose-tree induction (inversion of proc, loop invariant of _compute_styles, _process_lwsp/_prune_empty_spans lemmas) + "
+    "in-Coq evaluation of model and shape checker on generated documents", "DESIGN.md section 5 C13")
 chk("C14", "proof",
     "Coq theorems (coq/Properties/C14.v) about the transcription of the significant-times cache (per-region clones, content interval) "
     "relate cached and uncached snapshot generation (see the file for the exact list); the transcription of from_model-with-cache is "
